@@ -24,6 +24,7 @@ type Select struct {
 	To       string `json:"to"`        // last statement of the range (text prefix); empty = same as From
 	Until    string `json:"until"`     // with From: first statement AFTER the range (text prefix), in the same block
 	BodyOf   string `json:"body_of"`   // statements of the body of the loop/if matched
+	ThroughLoop string `json:"through_loop_containing"` // with from: the region runs up to and including the header of the first following for statement whose body holds a statement with this prefix; that loop's body is replaced by the iteration counter
 	HeaderOf string `json:"header_of"` // the for statement matched with its body replaced by an iteration counter (zzHeaderCount, stops after zzHeaderLimit)
 	Before   string `json:"before"`    // all statements of the enclosing block before the match
 	After    string `json:"after"`     // all statements of the enclosing block after the match
@@ -354,6 +355,27 @@ func (l *lifter) liftOne(r Region, imports map[string]string) (string, string, e
 				return "", "", fmt.Errorf("end anchor %q not found after start in the same block", sel.To)
 			}
 			end = found
+		} else if sel.ThroughLoop != "" {
+			found := -1
+			for j := m.idx + 1; j < len(m.list) && found < 0; j++ {
+				if fs, ok := m.list[j].(*ast.ForStmt); ok {
+					for _, bs := range fs.Body.List {
+						if strings.HasPrefix(norm(l.text(bs)), norm(sel.ThroughLoop)) {
+							found = j
+							break
+						}
+					}
+				}
+			}
+			if found < 0 {
+				return "", "", fmt.Errorf("no following loop holds a statement %q", sel.ThroughLoop)
+			}
+			x := m.list[found].(*ast.ForStmt)
+			y := *x
+			y.Body = &ast.BlockStmt{Lbrace: x.Body.Lbrace, Rbrace: x.Body.Lbrace}
+			stmts = append(append([]ast.Stmt{}, m.list[m.idx:found]...), &y)
+			headerMode = true
+			end = -1
 		} else if sel.Until != "" {
 			found := -1
 			for j := m.idx + 1; j < len(m.list); j++ {
@@ -367,7 +389,9 @@ func (l *lifter) liftOne(r Region, imports map[string]string) (string, string, e
 			}
 			end = found - 1
 		}
-		stmts = m.list[m.idx : end+1]
+		if end >= 0 {
+			stmts = m.list[m.idx : end+1]
+		}
 	default:
 		return "", "", fmt.Errorf("empty selection")
 	}
